@@ -12,7 +12,8 @@ RULE = ("real is_functional_group on every (molecule, group, non-carbon atom) vs
         "renumbering of the atoms (all 25 groups); real pattern_match on every (molecule, atom, pattern) over all "
         "pattern / anti-pattern / group-atom structures whose elements include the atom's, judged by checking the "
         "returned mapping directly and by an independent backtracking sub-graph matcher for missed occurrences; "
-        "molecules = corpus sample + constructed small-ring / fused / hetero-aromatic molecules; distinct "
+        "molecules = corpus sample + constructed small-ring / fused / hetero-aromatic molecules + molecules whose "
+        "hydrogens are atoms of the graph (isotope-labelled H, Chem.AddHs); distinct "
         "non-trivial = distinct (molecule, atom, pattern) where the anchor's element occurs in the pattern")
 ASSUMPTIONS = ["atoms match on element symbol and bonds on RDKit bond type (what the library compares)",
                "an occurrence is an injective map of all pattern atoms with every pattern bond present"]
@@ -28,6 +29,16 @@ CONSTRUCTED = [
     "OCOC", "C1OCOC1O", "OC1OCCO1", "C=CO", "OC=CC=CO", "OC1=CCC1", "C1=COC=C1", "C1=COCO1", "COC=C",
     "CC(O)=O", "OC(=O)C(O)=O", "O=C(O)C1CC1", "O=C1OC(=O)O1", "O=C(OC)OC", "OC(=O)OC", "CSC", "C1CSC1", "C1SCS1",
     "CSCSC", "COC(=O)C1CC1C(=O)OC", "O=C1OC2CC1C2", "C12OC1O2" if False else "C1OC2CC1O2",
+]
+
+
+# hydrogen atoms that are part of the graph: isotope-labelled hydrogens survive parsing as atoms
+LABELLED_H = [
+    "[2H]OC(C)=O", "CC(=O)O[2H]", "[2H]N([2H])C(C)=O", "[2H]OC", "CO[2H]", "[2H]N(C)C", "[2H]Oc1ccccc1",
+    "[2H]OC(=O)c1ccccc1", "[2H]NC(=O)OC", "[3H]OCC", "[2H]SC", "[2H]OP(=O)(O)O", "[2H]OC=C", "[2H]OC(O)C",
+    "[2H]N(C(C)=O)C(C)=O", "[2H]OC(=O)OC", "[2H]NC(N)=O", "[2H]NC(=O)N[2H]", "CC(=O)N([2H])C", "[2H]OCO[2H]",
+    "[2H]C([2H])([2H])OC(C)=O", "[2H]C(=O)OC", "[2H]C(=O)N(C)C", "[2H]OS(C)(=O)=O", "[2H]Nc1ccccc1",
+    "[2H]N1CC1", "[2H]OC1OC1", "[2H]ON", "CC(=O)S[2H]", "[2H]OC(=O)C(=O)O[2H]", "N#CC([2H])O[2H]",
 ]
 
 
@@ -49,6 +60,10 @@ def plan(tier, seed):
     mols, cons = mols_for(tier, seed)
     shards = [{"mols": c, "renum": 4 if q else 6} for c in common.stripe(mols, 15 if q else 46)]
     shards.append({"mols": cons, "renum": 6, "all_atoms": True})
+    shards.append({"mols": [c for c in LABELLED_H if oracle.parse(c) is not None], "renum": 8, "all_atoms": True})
+    # ... and molecules carrying all their hydrogens as atoms (Chem.AddHs)
+    rng = common.rng(seed, "C16h")
+    shards.append({"mols": rng.sample(mols, 30 if q else 300) + cons[:30], "renum": 4, "addhs": True})
     return shards
 
 
@@ -59,7 +74,9 @@ def reparse(mol, rng):
         a.SetAtomMapNum(a.GetIdx() + 1)
     Chem.rdBase.SeedRandomNumberGenerator(rng.randrange(1 << 30))
     s = Chem.MolToSmiles(m, canonical=False, doRandom=True)
-    new = Chem.MolFromSmiles(s)
+    ps = Chem.SmilesParserParams()
+    ps.removeHs = False  # hydrogens that are atoms of the graph stay atoms
+    new = Chem.MolFromSmiles(s, ps)
     if new is None or new.GetNumAtoms() != mol.GetNumAtoms():
         return None, None
     o2n = {a.GetAtomMapNum() - 1: a.GetIdx() for a in new.GetAtoms()}
@@ -120,7 +137,13 @@ def work(shard, res, tier, seed):
         mol = oracle.parse(s)
         if mol is None:
             continue
-        atoms = [a.GetIdx() for a in mol.GetAtoms() if shard.get("all_atoms") or a.GetSymbol() != "C"]
+        if shard.get("addhs"):
+            mol = Chem.AddHs(mol)
+            res.count("molecules_with_all_hydrogens_as_atoms")
+        if any(a.GetSymbol() == "H" for a in mol.GetAtoms()):
+            res.count("molecules_with_hydrogen_atoms_in_the_graph")
+        atoms = [a.GetIdx() for a in mol.GetAtoms()
+                 if (shard.get("all_atoms") or a.GetSymbol() != "C") and a.GetSymbol() != "H"]
         if not atoms:
             continue
         # (1) renumbering invariance of is_functional_group
@@ -193,4 +216,5 @@ def work(shard, res, tier, seed):
 
 def conclude_args(res, tier, seed):
     return {"need": {"renumbering_evaluated": 5000, "renumbering_positive": 200,
-                     "pattern_match_evaluated": 5000, "pattern_match_positive": 500}, "min_cases": 2000}
+                     "pattern_match_evaluated": 5000, "pattern_match_positive": 500,
+                     "molecules_with_hydrogen_atoms_in_the_graph": 40}, "min_cases": 2000}
